@@ -148,7 +148,7 @@ fn watchdog(cfg: &Cfg) -> Duration {
     let n: f64 = cfg.input.iter().map(|v| v.len() as f64).sum();
     let nd = cfg.body.split('.').filter(|s| *s == "d").count() as i32;
     let work = (n * (cfg.e as f64).powi(nd * cfg.rounds as i32)).min(60000.0);
-    Duration::from_millis(base + (work / 3.0) as u64)
+    Duration::from_millis((base + (work / 3.0) as u64) * load_factor() as u64)
 }
 
 fn run_job(cfg: &Cfg) -> Result<(Vec<i64>, Vec<i64>), String> {
